@@ -65,8 +65,11 @@ func (el *eventloop) accept0(fd int, _ netpoll.IOEvent, _ netpoll.IOFlags) error
 
 		el := el.engine.eventLoops.next(remoteAddr)
 		c := newStreamConn(network, nfd, el, sa, el.listeners[fd].addr, remoteAddr)
-		err = el.poller.Trigger(queue.HighPriority, el.register, c)
-		if err != nil {
+		err = el.poller.Trigger(queue.HighPriority, el.register, &connWithCallback{c: c})
+		if el.exited.Load() {
+			// The event-loop has exited in the meantime, it won't register this connection.
+			el.abortPending()
+		} else if err != nil {
 			el.getLogger().Errorf("failed to enqueue the accepted socket fd=%d to poller: %v", c.fd, err)
 			_ = unix.Close(nfd)
 			c.release()
